@@ -915,6 +915,10 @@ class Element(object):
                     value = ElementList(self)
                 old_children = self.__dict__.get('children')
                 last_child_index = self.__dict__.get('_last_child_index')
+                # the children that come from another parent, with their position there
+                taken = [(c, c.parent, c.parent.children.list.index(c)) for c in children
+                         if isinstance(c, Element) and c.parent is not None and c.parent is not self and
+                         any(c is x for x in c.parent.children.list)]
                 super(Element, self).__setattr__(name, value)
                 try:
                     for c in children:
@@ -926,6 +930,9 @@ class Element(object):
                             if not any(c is old for old in old_children.list):  # the previous children stay attached
                                 c._parent = None
                         super(Element, self).__setattr__(name, old_children)
+                        for c, previous_parent, position in taken:  # and the ones taken from another parent go back
+                            if c._parent is None:
+                                previous_parent.children.insert(position, c)
                         if last_child_index is not None:  # open-ended segments count the fields they hold
                             self._last_child_index = last_child_index
                     raise
